@@ -32,7 +32,7 @@
          notify_all() = notify(len(self._waiters))    R_Notify n  loop: waiters[0].release(); n -= 1; remove
      (end of with)                                    R_Unlock    mutex.release()
 *)
-From Coq Require Import List Arith Bool ZArith.
+From Coq Require Import List Arith Bool ZArith Uint63.
 Import ListNotations.
 Require Import RV.Model.C11Base.
 Open Scope Z_scope.
@@ -208,12 +208,15 @@ Definition zb (b : bool) : Z := if b then 1 else 0.
 Definition zopt (o : option nat) : Z := match o with Some t => Z.of_nat t | None => -1 end.
 
 (* observation after a scheduler step:
-   [mutex owner; _readers; _writer; #waiters] ++ waiters ++ [-2] ++ per thread [pc; enabled; notified; seen] *)
+   [mutex owner; _readers; _writer; #waiters] ++ waiters ++ [-2] ++ per thread [pc; enabled; notified; seen]
+   (`seen` is reported as 9 while the thread is at Q_Unlock: the value computed at Q_Read reaches the caller of
+   `locked` -- where the harness can see it -- only when the `with` block has been left) *)
 Definition observe (s : state) : list Z :=
   let g := glob s in
   [zopt (mutex g); readers g; zb (writer g); Z.of_nat (List.length (waiters g))]
   ++ map Z.of_nat (waiters g) ++ [-2]
-  ++ concat (map (fun '(i, th) => [pc_code (t_pc th); zb (enabled s i); zb (memb i (notified g)); lval_code (t_seen th)])
+  ++ concat (map (fun '(i, th) => [pc_code (t_pc th); zb (enabled s i); zb (memb i (notified g));
+                                    match t_pc th with Q_Unlock => 9 | _ => lval_code (t_seen th) end])
                  (combine (seq 0 (List.length (thr s))) (thr s))).
 
 (* run a schedule from the initial state, observing after every step; a step of a blocked thread ends the
@@ -237,3 +240,7 @@ Fixpoint eqb_lz (a b : list Z) : bool :=
   match a, b with [], [] => true | x :: a', y :: b' => Z.eqb x y && eqb_lz a' b' | _, _ => false end.
 Fixpoint eqb_llz (a b : list (list Z)) : bool :=
   match a, b with [], [] => true | x :: a', y :: b' => eqb_lz x y && eqb_llz a' b' | _, _ => false end.
+
+(* compact form used by the generated correspondence files: schedule and trace packed in 63-bit words *)
+Definition run_case_z (c : list (list Z) * (nat * list Uint63.int)) : list Uint63.int :=
+  map Uint63.of_Z (enc_trace (run_case (fst c, decode_sched (fst (snd c)) (map Uint63.to_Z (snd (snd c)))))).
